@@ -10,6 +10,7 @@ mod c06;
 mod c07;
 mod c08;
 mod c09;
+mod c10;
 mod mergecheck;
 mod modgen;
 mod c12;
@@ -30,6 +31,7 @@ fn run_property(id: &str, tier: &str) -> Option<Run> {
         "C07" => c07::run(tier),
         "C08" => c08::run(tier),
         "C09" => c09::run(tier),
+        "C10" => c10::run(tier),
         "C12" => c12::run(tier),
         "C13" => c13::run(tier),
         _ => return None,
@@ -61,6 +63,7 @@ fn main() {
             "C07" => c07::replay(&v["replay"]),
             "C08" => c08::replay(&v["replay"]),
             "C09" => c09::replay(&v["replay"]),
+            "C10" => c10::replay(&v["replay"]),
             "C12" => c12::replay(&v["replay"]),
             "C13" => c13::replay(&v["replay"]),
             _ => Err(format!("no replay for property {prop}")),
